@@ -1,6 +1,7 @@
 from __future__ import annotations
 
 import inspect
+from collections import Counter
 from typing import Any
 
 from torch.optim.lr_scheduler import _LRScheduler as TorchScheduler
@@ -26,6 +27,16 @@ class Scheduler(JSONSerializable):
         return self.scheduler.state_dict()
 
     def load_state_dict(self, state_dict: dict[str, Any]) -> None:
+        if isinstance(state_dict.get("milestones"), dict):
+            # MultiStepLR counts its milestones in a Counter keyed by epoch; a
+            # JSON checkpoint returns the keys as strings
+            state_dict = dict(state_dict)
+            state_dict["milestones"] = Counter(
+                {
+                    int(epoch): count
+                    for epoch, count in state_dict["milestones"].items()
+                }
+            )
         self.scheduler.load_state_dict(state_dict)
 
     @classmethod
